@@ -25,7 +25,7 @@ RULE = ("case = (matrix a, matrix b, ignore settings (comments, attributes, defi
         "(frame: added/deleted/length/id/format/name/comment/sender/attribute/signal group; signal: added/deleted/renamed/start/width/"
         "factor/offset/min/max/byte order/sign/multiplex/unit/comment/receiver/attribute/value table; ECU: added/deleted/comment/"
         "attribute; definitions of all four kinds: added/deleted/definition/default; global attribute; global value table), or an "
-        "The two matrices are compared in both orders, and once more, as the same objects. unrelated matrix; both operand orders are compared. Numbers include values around 2^32 (the next half step differs in the tenth digit), value texts include characters outside ASCII, frames added with the number of an existing frame in the other format, definitions edited inside their type (ENUM values, INT range). Frame lengths are 0..8, every length up to 64 bytes and a few longer ones (a length edit goes to a usual length, to a neighbour one or two bytes away, or to any length); signals of longer frames start anywhere in them. Signals share their bits (start, width, byte order) with other signals of the frame - other multiplexer groups or plain overlaps - in generated frames, as the added signal (signal.add-overlay) and as the deleted one; signals are renamed; added frames, signals, ECUs, definitions, value tables and signal groups are also copies of existing ones under a new name. One case in five is compared after one to three other comparisons (other operands, other ignore settings) in the same process. A second stream goes through the command line canmatrix.cli.compare: the two matrices (made expressible in DBC: every attribute defined, one multiplexer per frame) are written to files, the case describes what a reader gets from the files, and cli_compare is invoked in a forked child process - by main(args), by click's CliRunner or by its callback, switches -c/-a/-t in short or long spelling - on a b and on b a, after zero to three earlier invocations with other switches, other operand orders or --frames; the printed report is held against the library comparison of the same files under the ignore settings the switches stand for, and is itself the observation when it differs. The meaning of the switches (op flags) is observed on fourteen probe file pairs that differ in one comment / attribute / definition / value table entry, again after earlier invocations. Attributes and definitions are also called like a member of the class of the object that carries them (Signal.unit, Frame.cycle_time, Ecu.comment ... taken from the classes), like a member of another class or like a node label of the report; an attribute edit (added anywhere / deleted / value changed, any attribute of the object) also hits one object drawn from all attribute-carrying objects of the matrix (edit kind attr); two of the probe pairs differ in such an attribute; defaults written to files are of their definition's type. Non-trivial = distinct case with b != a.")
+        "The two matrices are compared in both orders, and once more, as the same objects. unrelated matrix; both operand orders are compared. Numbers include values around 2^32 (the next half step differs in the tenth digit), value texts include characters outside ASCII, frames added with the number of an existing frame in the other format, definitions edited inside their type (ENUM values, INT range). Frame lengths are 0..8, every length up to 64 bytes and a few longer ones (a length edit goes to a usual length, to a neighbour one or two bytes away, or to any length); signals of longer frames start anywhere in them. Signals share their bits (start, width, byte order) with other signals of the frame - other multiplexer groups or plain overlaps - in generated frames, as the added signal (signal.add-overlay) and as the deleted one; signals are renamed; added frames, signals, ECUs, definitions, value tables and signal groups are also copies of existing ones under a new name. One case in five is compared after one to three other comparisons (other operands, other ignore settings) in the same process. A second stream goes through the command line canmatrix.cli.compare: the two matrices (made expressible in DBC: every attribute defined, one multiplexer per frame) are written to files, the case describes what a reader gets from the files, and cli_compare is invoked in a forked child process - by main(args), by click's CliRunner or by its callback, switches -c/-a/-t in short or long spelling - on a b and on b a, after zero to three earlier invocations with other switches, other operand orders or --frames; the printed report is held against the library comparison of the same files under the ignore settings the switches stand for, and is itself the observation when it differs. The meaning of the switches (op flags) is observed on fourteen probe file pairs that differ in one comment / attribute / definition / value table entry, again after earlier invocations. Attributes and definitions are also called like a member of the class of the object that carries them (Signal.unit, Frame.cycle_time, Ecu.comment ... taken from the classes), like a member of another class or like a node label of the report; an attribute edit (added anywhere / deleted / value changed, any attribute of the object) also hits one object drawn from all attribute-carrying objects of the matrix (edit kind attr); two of the probe pairs differ in such an attribute; defaults written to files are of their definition's type. Units are drawn from a list with characters outside ASCII (superscripts, micro / ohm / kelvin / degree signs and the letters that look like them, umlauts); an edit of a unit, a comment, a value text or an attribute value is - one time in three, units one time in two - an edit to a near text: the same text in another Unicode spelling (compatibility pairs such as superscript two and 2, micro sign and mu; composed and decomposed letters), another case or other white space. For half of the library comparisons the ignore settings are given as another dict that says the same: switches that are on by another true value, switches that are off present with a value that leaves them off (VALUETABLES: False / None / 0 / '', ATTRIBUTE and DEFINE likewise), keys the comparison does not know, None or no argument when nothing is ignored. Non-trivial = distinct case with b != a.")
 PARTIAL = ["numeric fields are compared as doubles by the code; generated values are multiples of 0.5 (exactly representable), "
            "modelled as integers", "the ref/changes payload of result nodes (object references, old/new texts) is not compared, only "
            "(result, type) and the tree shape", "cancompare's stdout is compared as text with dump_result of the library's tree for the same files; when it differs, the tree read back "
@@ -90,6 +90,50 @@ def member_like(rng, level, n):
     return out
 
 
+# texts that mean (nearly) the same to a reader and are different texts all the same: pairs of spellings that a compatibility
+# normalisation of Unicode (NFKC / NFKD), a canonical one (NFC / NFD), a change of case or of white space maps onto each other.
+# A comparison of texts is a comparison of their characters; an edit between two such texts is an edit.
+COMPAT = [("\u00b5", "\u03bc"), ("\u2126", "\u03a9"), ("\u212a", "K"), ("\u212b", "\u00c5"), ("\u00b2", "2"), ("\u00b3", "3"),
+          ("\u2103", "\u00b0C"), ("\uff36", "V"), ("\uff21", "A"), ("\ufb01", "fi"), ("\u2082", "2"), ("\u00a0", " "), ("\u2009", " "),
+          ("\u2215", "/"), ("\u2044", "/"), ("\u00bd", "1/2"), ("\u2030", "%"), ("\u2031", "%"), ("\u3392", "MHz"), ("\u33a7", "m/s"),
+          ("\u339e", "km"), ("\u2160", "I"), ("\u1d52", "o"), ("\u00ba", "o"), ("\u00b0", "\u00ba")]
+CANON = [("\u00fc", "u\u0308"), ("\u00f6", "o\u0308"), ("\u00e9", "e\u0301"), ("\u00c5", "A\u030a"), ("\u00e4", "a\u0308"), ("\u00f1", "n\u0303")]
+UNITS = ["", "km/h", "V", "", "km/h", "V", "m/s\u00b2", "m/s2", "\u00b5V", "\u03bcs", "\u00b0C", "\u2103", "\u2126", "k\u03a9", "K", "kW", "mm\u00b3",
+         "1/min", "%", "MHz", "Nm", "A", "l/100 km", "m/s", "\u00c5", "gr\u00fcn"]
+
+
+def near_text(rng, t):
+    """another text than t that a normalisation (compatibility or canonical form of Unicode, case, white space) would map onto the
+    same text as t, or None if t has no such neighbour.  (No control characters, quotes or backslashes: the label of a changed value
+    table entry is the repr() of the text as bytes, which the model renders for printable ASCII only.)"""
+    if not t:
+        return None
+    def swap(pairs):
+        out = []
+        for x, y in pairs:
+            for u, v in ((x, y), (y, x)):
+                if u in t:
+                    out.append(t.replace(u, v, 1) if rng.random() < 0.5 else t.replace(u, v))
+        return out
+    kinds = {"compat": swap(COMPAT), "canon": swap(CANON),
+             "case": [x for x in (t.upper(), t.lower(), t.swapcase(), t.capitalize())],
+             "space": [t + " ", " " + t, t + "  ", t.replace(" ", "  ", 1), t.replace(" ", "", 1), t.replace("/", " / ", 1)]}
+    kinds = {k: sorted(set(x for x in v if x != t and x)) for k, v in kinds.items()}
+    kinds = {k: v for k, v in kinds.items() if v}
+    if not kinds:
+        return None
+    return rng.choice(kinds[rng.choice(sorted(kinds))])
+
+
+def edited_text(rng, t, plain):
+    """the text t after an edit: the plain edit (a visibly different text), or - one time in three - a near neighbour of t"""
+    if rng.random() < 0.34:
+        n = near_text(rng, t)
+        if n is not None:
+            return n
+    return plain
+
+
 def kv(rng, p=0.4, level=None):
     out = [[a, rng.choice(["1", "x", "on"])] for a in ANAMES if rng.random() < p]
     if level is not None and rng.random() < 0.45:
@@ -105,7 +149,7 @@ def gen_sig(rng, name, length=8):
     start = rng.randint(0, 40) if length <= 8 or rng.random() < 0.5 else rng.randint(0, length * 8 - 1)
     return {"name": name, "start": start, "size": rng.randint(1, 16), "factor": rng.choice([1, 2, 3, 5, -2, BIG]),
             "offset": rng.choice([0, 0, 1, -80, BIG]), "min": rng.choice([0, -10, 2, -BIG]), "max": rng.choice([100, 255, 7, BIG]),
-            "little": rng.random() < 0.5, "signed": rng.random() < 0.5, "multiplex": mux, "unit": rng.choice(["", "km/h", "V"]),
+            "little": rng.random() < 0.5, "signed": rng.random() < 0.5, "multiplex": mux, "unit": rng.choice(UNITS),
             "comment": rng.choice([None, "c1", "speed of car"]), "receivers": rng.sample(ECUS, rng.choice([0, 1, 2])),
             "attrs": kv(rng, 0.3, "signal"), "values": [[k, rng.choice(["On", "Off", "Err", "ge\u00f6ffnet", "10 \u00b5s"])] for k in rng.sample(range(6), rng.choice([0, 0, 2, 3]))]}
 
@@ -199,7 +243,7 @@ def edit(rng, a):
         elif what == "comment":
             if not f["comment"]:
                 return None, None
-            f["comment"] = f["comment"] + " edited"
+            f["comment"] = edited_text(rng, f["comment"], f["comment"] + " edited")
         elif what == "tx+":
             cand = [e for e in ECUS + ["NewEcu"] if e not in f["tx"]]
             f["tx"].append(rng.choice(cand))
@@ -236,7 +280,7 @@ def edit(rng, a):
             return None, None
         f = rng.choice(fs)
         what = rng.choice(["add", "add", "del", "del", "name", "start", "size", "factor", "offset", "min", "max", "little", "signed", "multiplex", "mux0",
-                           "unit", "comment", "rx+", "rx-", "attr", "val+", "val-", "valchg"])
+                           "unit", "unit", "comment", "rx+", "rx-", "attr", "val+", "val-", "valchg"])
         if what == "add":
             new = gen_sig(rng, "snew", f["size"])
             r = rng.random()
@@ -287,11 +331,13 @@ def edit(rng, a):
                 return None, None
             s["multiplex"] = "0" if s["multiplex"] == "None" else "None"
         elif what == "unit":
-            s["unit"] = other(s["unit"], ["", "km/h", "V", "A"])
+            # another unit, or (half of the time, if the signal has a unit) the same unit in a spelling that is another text
+            near = near_text(rng, s["unit"]) if rng.random() < 0.5 else None
+            s["unit"] = near if near is not None else other(s["unit"], UNITS + ["A"])
         elif what == "comment":
             if not s["comment"]:
                 return None, None
-            s["comment"] = s["comment"] + " edited"
+            s["comment"] = edited_text(rng, s["comment"], s["comment"] + " edited")
         elif what == "rx+":
             s["receivers"].append(rng.choice([e for e in ECUS + ["NewEcu"] if e not in s["receivers"]]))
         elif what == "rx-":
@@ -310,7 +356,7 @@ def edit(rng, a):
             if not s["values"]:
                 return None, None
             if rng.random() < 0.5:
-                s["values"][0][1] = s["values"][0][1] + "X"
+                s["values"][0][1] = edited_text(rng, s["values"][0][1], s["values"][0][1] + "X")
             else:
                 # a text that differs in characters outside ASCII only
                 t = s["values"][0][1]
@@ -333,7 +379,7 @@ def edit(rng, a):
         elif what == "comment":
             if not e[1]:
                 return None, None
-            e[1] = e[1] + " edited"
+            e[1] = edited_text(rng, e[1], e[1] + " edited")
         else:
             return attr_edit(rng, e[2], b, "ecu.attr")
         return b, "ecu." + what
@@ -386,7 +432,7 @@ def edit(rng, a):
         if what == "del":
             b["vt"].remove(t)
         elif t[1] and rng.random() < 0.5:
-            t[1][0][1] = t[1][0][1] + "\u00e9"          # the text of an entry changes (outside ASCII only)
+            t[1][0][1] = edited_text(rng, t[1][0][1], t[1][0][1] + "\u00e9")   # the text of an entry changes (outside ASCII only / to a near text)
         else:
             t[1].append([99, "q"])
         return b, "vt." + what
@@ -411,8 +457,47 @@ def attr_edit(rng, attrs, b, tag):
         # any attribute of the object changes its value (half of the time one called like a member, if there is one)
         like = [x for x in attrs if x[0] in MEMBERS[level] or x[0] in FOREIGN]
         x = rng.choice(like) if like and rng.random() < 0.5 else rng.choice(attrs)
-        x[1] = x[1] + "_chg" if rng.random() < 0.7 else ("1" if x[1] != "1" else "2")
+        # (add_attribute strips its value: white space at the ends is not part of an attribute value)
+        old = x[1]
+        x[1] = edited_text(rng, x[1], x[1] + "_chg").strip() if rng.random() < 0.7 else ("1" if x[1] != "1" else "2")
+        if x[1] == old:
+            x[1] = old + "_chg"
     return b, tag + "." + what
+
+
+# The ignore settings reach compare_db as a dict.  What a caller may put there to say the same thing: a switch that is ON is the key
+# with its value ("*" for comment / ATTRIBUTE / DEFINE as the command line writes it; any true value for VALUETABLES); a switch that
+# is OFF is the key left out - or, for the switches whose value the code looks at, the key with a value that does not switch it on
+# (a caller that always passes all its switches: {"VALUETABLES": False, ...}); keys the comparison does not know say nothing; no
+# switch at all is also None or no argument.  ("comment" is switched by the presence of the key alone, so it is only left out.)
+IGN_KEYS = ["comment", "ATTRIBUTE", "DEFINE", "VALUETABLES"]
+IGN_ON = {"comment": ["*", "*", True, 1, "yes"], "ATTRIBUTE": ["*"], "DEFINE": ["*"], "VALUETABLES": [True, True, 1, "*", "yes", 2]}
+IGN_OFF = {"comment": [], "ATTRIBUTE": [False, None, "", 0], "DEFINE": [False, None, "", 0], "VALUETABLES": [False, False, None, "", 0]}
+IGN_OTHER = [["FRAMES", "*"], ["SIGNALS", True], ["valuetables", True], ["ValueTables", "*"], ["attribute", "*"], ["define", "*"], ["COMMENT", "*"],
+             ["", "*"], ["*", "*"], ["ECU", "*"]]
+
+
+def ignore_meaning(spelled):
+    """the four switches a spelled-out ignore dict (list of [key, value]; None = no dict) stands for"""
+    d = dict((k, v) for k, v in spelled) if spelled is not None else {}
+    return ["comment" in d, d.get("ATTRIBUTE") == "*", d.get("DEFINE") == "*", bool(d.get("VALUETABLES"))]
+
+
+def gen_igndict(rng, ign):
+    """one of the dicts a caller may pass to say `ign`"""
+    if not any(ign) and rng.random() < 0.2:
+        return None
+    out = []
+    for k, on in zip(IGN_KEYS, ign):
+        if on:
+            out.append([k, rng.choice(IGN_ON[k])])
+        elif IGN_OFF[k] and rng.random() < 0.45:
+            out.append([k, rng.choice(IGN_OFF[k])])
+    if rng.random() < 0.2:
+        out.append(list(rng.choice(IGN_OTHER)))
+    rng.shuffle(out)
+    assert ignore_meaning(out) == list(ign)
+    return out
 
 
 def gen(rng, tier, shard, nshards):
@@ -434,6 +519,9 @@ def gen(rng, tier, shard, nshards):
             # the comparison under test is not the first one of the process: other comparisons, with other ignore settings and
             # other operands, were made before it
             case["c"]["pre"] = [[[rng.random() < 0.5 for _ in range(4)], rng.choice(["ab", "ba", "aa", "bb"])] for _ in range(rng.randint(1, 3))]
+        if rng.random() < 0.5:
+            # the ignore settings as another dict that says the same
+            case["c"]["igndict"] = gen_igndict(rng, case["c"]["ign"])
         yield case
     # the same comparison through the command line (canmatrix.cli.compare), on files, after a history of other invocations
     for _ in range({"quick": 320, "thorough": 4800}[tier] // nshards):
@@ -840,7 +928,11 @@ def neighbours(case, rng, shard, nshards):
         a = case["c"]["a"]
         b, desc = edit(rng, a)
         if b is not None:
-            yield {"op": "cmp", "c": {"a": a, "b": b, "ign": [rng.random() < 0.3 for _ in range(4)], "edit": desc}}
+            ign = [rng.random() < 0.3 for _ in range(4)]
+            c = {"a": a, "b": b, "ign": ign, "edit": desc}
+            if rng.random() < 0.5:
+                c["igndict"] = gen_igndict(rng, ign)
+            yield {"op": "cmp", "c": c}
 
 
 def build(m):
@@ -901,6 +993,15 @@ def observe(case):
         ignore["DEFINE"] = "*"
     if c["ign"][3]:
         ignore["VALUETABLES"] = True
+    args = (ignore,)
+    if "igndict" in c:
+        # the same settings in the spelling of the case (the driver is told the settings, the code gets the dict)
+        if ignore_meaning(c["igndict"]) != [bool(x) for x in c["ign"]]:
+            raise core.Infra("C13: the ignore dict of the case does not say the ignore settings of the case")
+        if c["igndict"] is None:
+            args = (None,) if len(c["a"]["frames"]) % 2 else ()
+        else:
+            args = (dict((k, v) for k, v in c["igndict"]),)
     def built(which):
         """the matrix as described; a matrix that lost a frame compared with the other one is built with that frame and loses it
         through the API (del_frame / remove_frame), as an edited matrix does"""
@@ -929,9 +1030,9 @@ def observe(case):
     for ign4, operands in c.get("pre", []):
         other = {k: v for on, (k, v) in zip(ign4, [("comment", "*"), ("ATTRIBUTE", "*"), ("DEFINE", "*"), ("VALUETABLES", True)]) if on}
         canmatrix.compare.compare_db({"a": A, "b": B}[operands[0]], {"a": A, "b": B}[operands[1]], other)
-    ab = tree(canmatrix.compare.compare_db(A, B, ignore))
-    ba = tree(canmatrix.compare.compare_db(B, A, ignore))
-    again = tree(canmatrix.compare.compare_db(A, B, ignore))
+    ab = tree(canmatrix.compare.compare_db(A, B, *args))
+    ba = tree(canmatrix.compare.compare_db(B, A, *args))
+    again = tree(canmatrix.compare.compare_db(A, B, *args))
     if again != ab:
         return {"ab": again, "ba": ba, "note": "comparing the same two matrices again gives another result"}
     return {"ab": ab, "ba": ba}
@@ -957,6 +1058,20 @@ def features(case, impl):
                 yield "cli: earlier invocation with other switches"
         else:
             yield "path=library, %d earlier comparisons" % len(case["c"].get("pre", []))
+            if "igndict" in case["c"]:
+                sp = case["c"]["igndict"]
+                if sp is None:
+                    yield "ignore dict: None / no argument"
+                else:
+                    yield "ignore dict: spelled out"
+                    on = ignore_meaning(sp)
+                    for k, v in sp:
+                        if k not in IGN_KEYS:
+                            yield "ignore dict: key the comparison does not know"
+                        elif not on[IGN_KEYS.index(k)]:
+                            yield "ignore dict: %s present with a value that leaves it off" % k
+                        elif v not in ("*", True) or (k == "VALUETABLES") != (v is True):
+                            yield "ignore dict: %s on by another value than the command line's" % k
     elif case["op"] == "flags":
         yield "flags: %d earlier invocations" % (len(case["c"][3]) if len(case["c"]) > 3 else 0)
 
